@@ -50,7 +50,7 @@ theorem nan_ordering_never_accepts (o : Ord) (v : Val) : okE (.cmp (.ord o) .nan
 
 /-- a list with a NaN inside is not `==` to the list of the same values made of other objects: `equal_to([…, nan, …])` accepts
     no list built independently (the identity-free reading; what the real code does when ONE NaN object sits in both lists is the
-    open finding D42, oracle signature `C17/nan-inside-container-identity-shortcut`) -/
+    open finding D46, oracle signature `C17/nan-inside-container-identity-shortcut`) -/
 theorem list_with_nan_not_equal_to_its_copy (pre post : List Val) :
     pyEq (.list (pre ++ Val.nan :: post)) (.list (pre ++ Val.nan :: post)) = false := by
   simp [pyEq, pyEqList_nan_irreflexive]
